@@ -22,16 +22,16 @@ CHECKS = {
     "C11": dict(engine="S", text="to_swan -> a real file on disk -> read_swan with every energy density a symbolic real that travels through the file as a token under the printf/strtod contract (half a unit of the last printed digit): z3 proves each cell comes back at the position it was written from within half a unit of its block's FACTOR, zero and missing spectra are preserved, for station and lat-lon grid layouts with unequal sizes, chunked and gzip writing; WW3 writer/reader pair through the captured dataset; CF packing parameters of the netCDF writer over a symbolic density", ref="6/C11",
                 note="the text of each number is a contract stub (documented printf/strtod behaviour); Octopus, Funwave and JSON pairs are outside the claim; reals stand in for floats"),
     "C12": dict(engine="S", text="from_ww3/from_ncswan/from_wwm/from_era5/from_ndbc and the read_dataset dispatcher executed on in-memory native datasets with symbolic densities, winds and directional moments: z3 proves every output bin is the unit-converted native bin at its converted physical direction, the variance integrals in native and converted units agree, winds are speed / coming-from direction, missing ERA5 values become 0", ref="6/C12"),
-    "C13": dict(engine="S", text="PARTIAL: (a) the reconstruction kernels (NDBC ASCII and netCDF first/second moment formula, Cartwright spreading used by Spotter/Datawell) are executed on symbolic frequency spectra and directional moments and z3 proves the 2-D result integrates over direction to the 1-D spectrum (angle-addition split of cos over the uniform circle); (b) read_swan is run on real files produced by an independent reference encoder in which FACTOR and every table entry are symbolic tokens: value = FACTOR x entry (/ rho g for energy units) at its time, location, frequency and nautical direction (CDIR converted), ZERO -> 0, NODATA -> missing, in every block order. Header/column/time parsing of the other instrument formats is NOT claimed", ref="6/C13",
+    "C13": dict(engine="S", text="PARTIAL: (a) the reconstruction kernels (NDBC ASCII and netCDF first/second moment formula, Cartwright spreading used by Spotter/Datawell) are executed on symbolic frequency spectra and directional moments and z3 proves the 2-D result integrates over direction to the 1-D spectrum (angle-addition split of cos over the uniform circle), for direction grids supplied in ascending, descending, seam-crossing and shuffled storage order; (b) read_swan is run on real files produced by an independent reference encoder in which FACTOR and every table entry are symbolic tokens: value = FACTOR x entry (/ rho g for energy units) at its time, location, frequency and nautical direction (CDIR converted), ZERO -> 0, NODATA -> missing, in every block order. Header/column/time parsing of the other instrument formats is NOT claimed", ref="6/C13",
                 note="partial scope stated in the evidence (outside_claim): only the numerical kernels and the SWAN numeric path; reals stand in for floats"),
-    "C14": dict(engine="S", text="Dataset.spec.sel (nearest, idw, bbox) executed through the public API with symbolic station and query longitudes/latitudes and symbolic tolerance, both longitude conventions independently as preconditions: z3 proves the selected stations are those of the circular-distance / box oracle, weights are 1/d, failures happen exactly beyond the tolerance, longitudes come back in the query's convention - also for a selection made after an earlier selection on the same dataset object", ref="6/C14"),
+    "C14": dict(engine="S", text="Dataset.spec.sel (nearest, idw, bbox) executed through the public API with symbolic station and query longitudes/latitudes and symbolic tolerance, both longitude conventions independently as preconditions: z3 proves the selected stations are those of the circular-distance / box oracle, weights are 1/d, failures happen exactly beyond the tolerance, longitudes come back in the query's convention - also for a selection made after an earlier selection on the same dataset object, including one made with the caller's own query arrays", ref="6/C14"),
     "C15": dict(engine="S", text="the real construction functions are executed with symbolic hs, fp, gamma, alpha, gw, mean direction and spread; exp / x**y / cos of symbolic arguments are uninterpreted functions with positivity and range axioms, so z3 proves the Hs-scaling and the unit integral of the spreading function for EVERY positive shape value, non-negativity, jonswap(gamma=1) == pierson_moskowitz, TMA at 5000 m == JONSWAP (depth factor evaluated in floats), and that shape x spreading integrates back to the 1-D shape", ref="6/C15"),
     "C16": dict(engine="S", text="the real smooth_spec (xarray rolling mean) is executed on symbolic spectra for every window/grid in the bound; z3 proves each output bin equals the circular window mean (or lies within the neighbourhood's min/max at the edges), identity for window 1, commutation with circular shifts; even windows must raise", ref="6/C16"),
 }
 
 CHECKS["C17"] = dict(engine="S", text="every catalogue operation, the three selections (symbolic query longitudes in either convention passed as caller-owned numpy buffers), the reader helpers and the stacking helper are executed on symbolic data along every feasible path; deep snapshots of all argument objects (cells as terms, buffers, coordinates, attributes, encodings, dims, names) taken before the call must still describe them afterwards", ref="6/C17")
 
-CHECKS["C18"] = dict(engine="S+X+L", text="all histories up to the bound over {accessor calls, in-place replacement of efth, in-place relabelling of dir with the same / another spacing, unknown-statistic call, reader call, transform call} are executed on one symbolic object (DataArray and Dataset); afterwards every observed statistic must be solver-equal to the one computed on a freshly built object with the same contents and the Dataset accessor must agree with its efth variable; CrossHair checks that AttrDict lookups do not change membership; peak statistics and site selection are observed after call - edit in place - call histories; the static buffers of the C extension by consecutive partition calls on different shapes (Engine L)", ref="6/C18")
+CHECKS["C18"] = dict(engine="S+X+L", text="all histories up to the bound over {accessor calls, in-place replacement of efth, in-place relabelling of dir with the same / another spacing, in-place relabelling of freq with other bin widths, unknown-statistic call, reader call, transform call} are executed on one symbolic object (DataArray and Dataset); afterwards every observed statistic must be solver-equal to the one computed on a freshly built object with the same contents and the Dataset accessor must agree with its efth variable; CrossHair checks that AttrDict lookups do not change membership; peak statistics and site selection are observed after call - edit in place - call histories; the static buffers of the C extension by consecutive partition calls on different shapes (Engine L)", ref="6/C18")
 
 CHECKS["C19"] = dict(engine="S", text="inductive decomposition: the real match_consecutive_partitions is executed on symbolic peak frequencies/directions and thresholds (merging arrays keep the elementwise threshold tests as terms, forks only at the real control flow) and z3 proves the step postcondition on every path; the real np_track_partitions is then run with the matcher replaced by every vector that postcondition allows (propagation lemma: uniqueness, 0..N-1 in order of appearance, no reappearance) and once unmodified on symbolic statistics (glue: slices, threshold indexing, dt); the xarray wrapper per site", ref="6/C19")
 CHECKS["C20"] = dict(engine="S+L", text="exception monitor over symbolic sweeps of every statistic/transform/rule-based partition on the degenerate families (zero, constant, single bin, peak on the first/last frequency, 1-2 directions, 1-3 frequencies): any exception on a feasible path is replayed and reported; invalid arguments must raise ValueError; the IR of specpart.c is executed with an in-bounds obligation on every load/store, an int32-overflow obligation on every add/sub/mul, initialised-read, use-after-free and instruction-budget checks, counterexamples replayed under ASan/UBSan; the level-index clamp is proved for all doubles as a QF_FP query", ref="6/C20",
